@@ -1,4 +1,158 @@
+(* C07 — Comparison, equality and hashing agree with the numeric value.
+   A := uval w a (BUint reading), SA := sval w a (BInt reading: top digit signed). *)
 From Bnum Require Import Base Prim.
-Theorem C07_placeholder : forall w n ds, 0 <= w -> wf w n ds -> 0 <= uval w ds < Mod w n.
-Proof. exact uval_bounds. Qed.
-Print Assumptions C07_placeholder.
+From Bnum.Model Require Import Core Shift Bits.
+From Bnum.Proofs Require Import Cmp.
+
+(* ---- cmp ---- *)
+Theorem C07_U_cmp : forall w n a b, 0 <= w -> wf w n a -> wf w n b ->
+  ucmp a b = (uval w a ?= uval w b).
+Proof. exact ucmp_ok. Qed.
+Print Assumptions C07_U_cmp.
+
+Theorem C07_I_cmp : forall w n a b, 0 < w -> (0 < n)%nat -> wf w n a -> wf w n b ->
+  icmp w a b = (sval w a ?= sval w b).
+Proof. exact icmp_ok. Qed.
+Print Assumptions C07_I_cmp.
+
+(* ---- lt / le / gt / ge ---- *)
+Theorem C07_U_lt : forall w n, 0 < w -> (0 < n)%nat -> forall a b, wf w n a -> wf w n b ->
+  cmp_lt (ucmp a b) = (uval w a <? uval w b).
+Proof. exact U_lt_ok. Qed.
+Print Assumptions C07_U_lt.
+Theorem C07_U_le : forall w n, 0 < w -> (0 < n)%nat -> forall a b, wf w n a -> wf w n b ->
+  cmp_le (ucmp a b) = (uval w a <=? uval w b).
+Proof. exact U_le_ok. Qed.
+Print Assumptions C07_U_le.
+Theorem C07_U_gt : forall w n, 0 < w -> (0 < n)%nat -> forall a b, wf w n a -> wf w n b ->
+  cmp_gt (ucmp a b) = (uval w b <? uval w a).
+Proof. exact U_gt_ok. Qed.
+Print Assumptions C07_U_gt.
+Theorem C07_U_ge : forall w n, 0 < w -> (0 < n)%nat -> forall a b, wf w n a -> wf w n b ->
+  cmp_ge (ucmp a b) = (uval w b <=? uval w a).
+Proof. exact U_ge_ok. Qed.
+Print Assumptions C07_U_ge.
+Theorem C07_I_lt : forall w n, 0 < w -> (0 < n)%nat -> forall a b, wf w n a -> wf w n b ->
+  cmp_lt (icmp w a b) = (sval w a <? sval w b).
+Proof. exact I_lt_ok. Qed.
+Print Assumptions C07_I_lt.
+Theorem C07_I_le : forall w n, 0 < w -> (0 < n)%nat -> forall a b, wf w n a -> wf w n b ->
+  cmp_le (icmp w a b) = (sval w a <=? sval w b).
+Proof. exact I_le_ok. Qed.
+Print Assumptions C07_I_le.
+Theorem C07_I_gt : forall w n, 0 < w -> (0 < n)%nat -> forall a b, wf w n a -> wf w n b ->
+  cmp_gt (icmp w a b) = (sval w b <? sval w a).
+Proof. exact I_gt_ok. Qed.
+Print Assumptions C07_I_gt.
+Theorem C07_I_ge : forall w n, 0 < w -> (0 < n)%nat -> forall a b, wf w n a -> wf w n b ->
+  cmp_ge (icmp w a b) = (sval w b <=? sval w a).
+Proof. exact I_ge_ok. Qed.
+Print Assumptions C07_I_ge.
+
+(* ---- max / min: the value is Z.max / Z.min and the result is one of the operands ---- *)
+Theorem C07_U_max : forall w n, 0 < w -> (0 < n)%nat -> forall a b, wf w n a -> wf w n b ->
+  uval w (cmp_max (ucmp a b) a b) = Z.max (uval w a) (uval w b) /\
+  (cmp_max (ucmp a b) a b = a \/ cmp_max (ucmp a b) a b = b).
+Proof. exact U_max_ok. Qed.
+Print Assumptions C07_U_max.
+Theorem C07_U_min : forall w n, 0 < w -> (0 < n)%nat -> forall a b, wf w n a -> wf w n b ->
+  uval w (cmp_min (ucmp a b) a b) = Z.min (uval w a) (uval w b) /\
+  (cmp_min (ucmp a b) a b = a \/ cmp_min (ucmp a b) a b = b).
+Proof. exact U_min_ok. Qed.
+Print Assumptions C07_U_min.
+Theorem C07_I_max : forall w n, 0 < w -> (0 < n)%nat -> forall a b, wf w n a -> wf w n b ->
+  sval w (cmp_max (icmp w a b) a b) = Z.max (sval w a) (sval w b) /\
+  (cmp_max (icmp w a b) a b = a \/ cmp_max (icmp w a b) a b = b).
+Proof. exact I_max_ok. Qed.
+Print Assumptions C07_I_max.
+Theorem C07_I_min : forall w n, 0 < w -> (0 < n)%nat -> forall a b, wf w n a -> wf w n b ->
+  sval w (cmp_min (icmp w a b) a b) = Z.min (sval w a) (sval w b) /\
+  (cmp_min (icmp w a b) a b = a \/ cmp_min (icmp w a b) a b = b).
+Proof. exact I_min_ok. Qed.
+Print Assumptions C07_I_min.
+
+(* ---- clamp: panics exactly when max < min; otherwise the clamped value, one of the operands ---- *)
+Theorem C07_U_clamp : forall w n, 0 < w -> (0 < n)%nat -> forall a lo hi,
+  wf w n a -> wf w n lo -> wf w n hi ->
+  (clamp ucmp a lo hi = Panic <-> uval w hi < uval w lo) /\
+  (uval w lo <= uval w hi -> exists r, clamp ucmp a lo hi = Ret r /\
+     uval w r = Z.max (uval w lo) (Z.min (uval w a) (uval w hi)) /\ (r = a \/ r = lo \/ r = hi)).
+Proof. exact U_clamp_ok. Qed.
+Print Assumptions C07_U_clamp.
+Theorem C07_I_clamp : forall w n, 0 < w -> (0 < n)%nat -> forall a lo hi,
+  wf w n a -> wf w n lo -> wf w n hi ->
+  (clamp (icmp w) a lo hi = Panic <-> sval w hi < sval w lo) /\
+  (sval w lo <= sval w hi -> exists r, clamp (icmp w) a lo hi = Ret r /\
+     sval w r = Z.max (sval w lo) (Z.min (sval w a) (sval w hi)) /\ (r = a \/ r = lo \/ r = hi)).
+Proof. exact I_clamp_ok. Qed.
+Print Assumptions C07_I_clamp.
+
+(* ---- equality: eq <-> identical digit arrays <-> equal values (canonical representation) ---- *)
+Theorem C07_eq_arrays : forall w n a b, wf w n a -> wf w n b -> (eq_digits a b = true <-> a = b).
+Proof. exact eq_digits_ok. Qed.
+Print Assumptions C07_eq_arrays.
+Theorem C07_val_inj : forall w n a b, 0 <= w -> wf w n a -> wf w n b -> (a = b <-> uval w a = uval w b).
+Proof. exact eq_uval. Qed.
+Print Assumptions C07_val_inj.
+Theorem C07_U_eq : forall w n a b, 0 <= w -> wf w n a -> wf w n b ->
+  (eq_digits a b = true <-> uval w a = uval w b).
+Proof. exact eq_digits_uval. Qed.
+Print Assumptions C07_U_eq.
+Theorem C07_I_eq : forall w n a b, 0 < w -> wf w n a -> wf w n b ->
+  (eq_digits a b = true <-> sval w a = sval w b).
+Proof. exact eq_digits_sval. Qed.
+Print Assumptions C07_I_eq.
+Theorem C07_uval_sval_eq : forall w n a b, 0 < w -> wf w n a -> wf w n b ->
+  (uval w a = uval w b <-> sval w a = sval w b).
+Proof. exact uval_sval_eq. Qed.
+Print Assumptions C07_uval_sval_eq.
+
+(* ---- hashing: the derived Hash feeds `hash_stream` (the digit array in order) to the Hasher ---- *)
+Theorem C07_hash_stream : forall a b : list Z, a = b -> hash_stream a = hash_stream b.
+Proof. exact hash_eq_stream. Qed.
+Print Assumptions C07_hash_stream.
+Theorem C07_U_hash : forall w n a b, 0 <= w -> wf w n a -> wf w n b ->
+  uval w a = uval w b -> hash_stream a = hash_stream b.
+Proof. exact hash_equal_values. Qed.
+Print Assumptions C07_U_hash.
+Theorem C07_I_hash : forall w n a b, 0 < w -> wf w n a -> wf w n b ->
+  sval w a = sval w b -> hash_stream a = hash_stream b.
+Proof. exact hash_equal_svalues. Qed.
+Print Assumptions C07_I_hash.
+
+(* ---- sign predicates ---- *)
+Theorem C07_is_negative : forall w n a, 0 < w -> (0 < n)%nat -> wf w n a ->
+  is_negative w a = (sval w a <? 0).
+Proof. exact is_negative_ok. Qed.
+Print Assumptions C07_is_negative.
+Theorem C07_is_positive : forall w n a, 0 < w -> (0 < n)%nat -> wf w n a ->
+  is_positive w a = (0 <? sval w a).
+Proof. exact is_positive_ok. Qed.
+Print Assumptions C07_is_positive.
+Theorem C07_zero_neither : forall w n a, 0 < w -> (0 < n)%nat -> wf w n a -> sval w a = 0 ->
+  is_positive w a = false /\ is_negative w a = false.
+Proof. exact zero_neither. Qed.
+Print Assumptions C07_zero_neither.
+Theorem C07_signum : forall w n a, 0 < w -> (0 < n)%nat -> wf w n a ->
+  wf w n (signum w a) /\ sval w (signum w a) = Z.sgn (sval w a).
+Proof. exact signum_ok. Qed.
+Print Assumptions C07_signum.
+
+(* ---- the hypotheses are satisfiable; concrete instances (w = 8, n = 3) ---- *)
+Example C07_ex_wf : wf 8 3 [0x34; 0x12; 0x80].
+Proof. apply wfb_wf. vm_compute. reflexivity. Qed.
+Example C07_ex_vals : uval 8 [0x34; 0x12; 0x80] = 0x801234 /\ sval 8 [0x34; 0x12; 0x80] = 0x801234 - 0x1000000.
+Proof. vm_compute. split; reflexivity. Qed.
+Example C07_ex_ucmp : ucmp [0x34; 0x12; 0x80] [0xff; 0xff; 0x7f] = Gt.
+Proof. vm_compute. reflexivity. Qed.
+Example C07_ex_icmp : icmp 8 [0x34; 0x12; 0x80] [0xff; 0xff; 0x7f] = Lt.
+Proof. vm_compute. reflexivity. Qed.
+Example C07_ex_clamp_panic : clamp (icmp 8) [1; 0; 0] [0; 0; 0] [0xff; 0xff; 0xff] = Panic.
+Proof. vm_compute. reflexivity. Qed.
+Example C07_ex_clamp : clamp ucmp [1; 0; 9] [0; 0; 0] [0xff; 0xff; 0x03] = Ret [0xff; 0xff; 0x03].
+Proof. vm_compute. reflexivity. Qed.
+Example C07_ex_signum : signum 8 [0x34; 0x12; 0x80] = [0xff; 0xff; 0xff] /\ signum 8 [0; 0; 0] = [0; 0; 0]
+                        /\ signum 8 [0; 1; 0] = [1; 0; 0].
+Proof. vm_compute. repeat split; reflexivity. Qed.
+Example C07_ex_is_positive_zero_top : is_positive 8 [0; 1; 0] = true /\ is_positive 8 [0; 0; 0] = false.
+Proof. vm_compute. split; reflexivity. Qed.
